@@ -651,7 +651,16 @@ void upolynomial_roots_find_Zp(const lp_upolynomial_t* f, lp_integer_t** roots, 
   *roots = malloc(sizeof(lp_integer_t) * d);
 
   // depending on the finite field size, choose appropriate function
-  if (integer_cmp_int(lp_Z, &K->M, FIELD_ORDER_LIMIT) < 0) {
+  int brute_force = integer_cmp_int(lp_Z, &K->M, FIELD_ORDER_LIMIT) < 0;
+#ifdef LIBPOLY_VERIF
+  {
+    extern int lp_verif_flags;
+    if ((lp_verif_flags & 4) && integer_cmp_int(lp_Z, &K->M, 2) > 0) {
+      brute_force = 0;
+    }
+  }
+#endif
+  if (brute_force) {
     upolynomial_roots_find_brute_force(f, *roots, roots_size);
   } else {
     upolynomial_roots_find_rabin(f, *roots, roots_size);
